@@ -6,9 +6,13 @@ import UsualProofs.C14.Bits
 import UsualProofs.C14.Inet
 import UsualProofs.C14.Inet6
 import UsualProofs.C14.Inet6rt
+import UsualProofs.C14.Inet4g
+import UsualProofs.C14.Inet6g
 import UsualProofs.C14.Libc
+import UsualProofs.C14.Extra
 import UsualProofs.C14.Fnmatch
 import UsualProofs.C14.FnSound
+import UsualProofs.C14.FnComplete
 /-!
 # C14 — compat replacements behave exactly like the platform or specified functions
 
@@ -24,8 +28,7 @@ Partial (named `…_partial`, full statement in the comment next to it):
   mirror of `wfnmatch`) soundness is proved (`fnmatch_code_sound`) and its bracket walk is proved
   equal to the reference's (`match_class_spec`); that the single-retry loop finds EVERY match is
   compared by the harness, not proved; with FNM_PERIOD the mirror is the specification;
-* `pton6_spec_partial`: result shape + concrete forms (and the full round trip `pton_ntop6`),
-  no theorem about the complete input grammar.
+* (no longer partial: `pton6_spec` and `pton4_spec` characterise the complete accepted grammars.)
 -/
 namespace UsualProps.C14
 open Usual.C14 UsualProofs.C14
@@ -113,6 +116,15 @@ theorem strsep_spec (s delim : Bytes) (hterm : 0 ∈ s) :
 
 example : strsep [97, 44, 98, 0] [44, 0] = (some 2, [97, 0, 98, 0]) := by decide
 
+/-- `strsep` with `*stringp == NULL`: returns NULL, leaves `*stringp` NULL, touches nothing;
+    otherwise the token is the start of the string -/
+theorem strsep_null_spec (delim : Bytes) :
+    strsepP none delim = (none, none, none) ∧
+    ∀ b, strsepP (some b) delim = (some 0, (strsep b delim).1, some (strsep b delim).2) :=
+  ⟨rfl, fun _ => rfl⟩
+
+example : strsepP (some [97, 98, 0]) [44, 0] = (some 0, none, some [97, 98, 0]) := by decide
+
 /-! ## memrchr (repair F16) -/
 
 /-- `memrchr(p, c, n)`: the GREATEST index below `n` whose byte equals `(unsigned char)c`
@@ -190,6 +202,31 @@ theorem basename_spec (pre comp tail : Bytes) (hc : comp ≠ [])
   basename_decomp pre comp tail hc hcs ht hpre h0 hlen
 
 example : basename (some (bytesOf "/usr//lib///")) = bytesOf "lib" := by decide
+
+/-- the static-buffer limit of the compat `basename` (a documented-by-code limit, not POSIX): a
+    last component longer than 255 bytes FOLLOWED BY `/` comes back cut to its last 255 bytes;
+    without a trailing `/` (`basename_spec`, `tail = []`) there is no limit.  `dirname` refuses
+    results above 1023 bytes with NULL/ENAMETOOLONG (`dirname_spec`). -/
+theorem basename_limit_spec (pre comp tail : Bytes) (hcs : ∀ b ∈ comp, b ≠ cSlash)
+    (ht : ∀ b ∈ tail, b = cSlash) (htne : tail ≠ []) (hpre : pre = [] ∨ pre.getLast? = some cSlash)
+    (h0 : ∀ b ∈ pre ++ comp ++ tail, b ≠ 0) (hlen : basenameBuf < comp.length) :
+    basename (some (pre ++ comp ++ tail)) = comp.drop (comp.length - basenameBuf) ∧
+    (basename (some (pre ++ comp ++ tail))).length = basenameBuf := by
+  have h := basename_limit pre comp tail hcs ht htne hpre h0 hlen
+  refine ⟨h, ?_⟩
+  rw [h, List.length_drop]; omega
+
+example : (basename (some ([] ++ List.replicate 300 97 ++ [47]))).length = 255 :=
+  (basename_limit_spec [] (List.replicate 300 97) [47]
+    (fun b hb => by rw [List.eq_of_mem_replicate hb]; decide)
+    (fun b hb => by rw [List.mem_singleton.mp hb]; rfl) (by decide) (Or.inl rfl)
+    (fun b hb => by
+      rcases List.mem_append.mp hb with h | h
+      · rcases List.mem_append.mp h with h' | h'
+        · cases h'
+        · rw [List.eq_of_mem_replicate h']; decide
+      · rw [List.mem_singleton.mp h]; decide)
+    (by rw [List.length_replicate]; decide)).2
 
 /-- the corner cases of POSIX: NULL, "", "/", "//", "a/", "a//b", "." -/
 theorem basename_corners :
@@ -293,13 +330,25 @@ theorem pton_ntop4 (a b c d : Nat) (ha : a < 256) (hb : b < 256) (hc : c < 256) 
 example : ntop4Text [192, 168, 0, 1] = bytesOf "192.168.0.1" ∧
     pton4 (bytesOf "192.168.0.1" ++ [0]) = some [192, 168, 0, 1] := by decide
 
-/-- whatever `inet_pton4` accepts is four octets; 256 and empty fields are rejected -/
-theorem pton4_spec (s v : Bytes) (h : pton4 s = some v) : v.length = 4 ∧ ∀ x ∈ v, x < 256 :=
-  pton4_sound s v h
+/-- THE GRAMMAR of `inet_pton4`: accepted are exactly four decimal fields separated by single
+    dots, each one or more digits — LEADING ZEROS and any number of digits are allowed (BSD
+    lineage; glibc rejects them: a logged platform difference) — with value ≤ 255 (`DecOctet`);
+    the result is the four values.  Hence four bytes < 256; 256, empty fields, signs, blanks, a
+    trailing dot, three or five fields are rejected. -/
+theorem pton4_spec (s v : Bytes) :
+    (pton4 s = some v ↔
+      ∃ d1 d2 d3 d4 v1 v2 v3 v4, cstr s = d1 ++ cDot :: (d2 ++ cDot :: (d3 ++ cDot :: d4)) ∧
+        DecOctet d1 v1 ∧ DecOctet d2 v2 ∧ DecOctet d3 v3 ∧ DecOctet d4 v4 ∧ v = [v1, v2, v3, v4]) ∧
+    (pton4 s = some v → v.length = 4 ∧ ∀ x ∈ v, x < 256) :=
+  ⟨pton4_grammar s v, pton4_sound s v⟩
 
 example : pton4 (bytesOf "1.2.3.256" ++ [0]) = none ∧ pton4 (bytesOf "1..2.3" ++ [0]) = none ∧
     pton4 (bytesOf "1.2.3" ++ [0]) = none ∧ pton4 (bytesOf "1.2.3.4.5" ++ [0]) = none ∧
-    pton4 (bytesOf "255.00.0.0" ++ [0]) = some [255, 0, 0, 0] := by decide
+    pton4 (bytesOf "1.2.3.4." ++ [0]) = none ∧ pton4 (bytesOf " 1.2.3.4" ++ [0]) = none ∧
+    pton4 (bytesOf "255.00.0000.010" ++ [0]) = some [255, 0, 0, 10] ∧
+    DecOctet (bytesOf "0000") 0 ∧ DecOctet (bytesOf "010") 10 := by
+  refine ⟨by decide, by decide, by decide, by decide, by decide, by decide, by decide, ?_, ?_⟩ <;>
+    exact ⟨by decide, by decide, by decide, by decide⟩
 
 /-- `inet_ntop4/6` size handling: ENOSPC (nothing written) iff text + terminator do not fit;
     otherwise exactly text + NUL is stored and the rest of the buffer is untouched -/
@@ -346,17 +395,26 @@ example : pton6 (ntop6Text [0x20, 0x01, 0x0d, 0xb8, 0, 0, 0, 0, 0, 1, 0, 0, 0, 0
     some [0x20, 0x01, 0x0d, 0xb8, 0, 0, 0, 0, 0, 1, 0, 0, 0, 0, 0, 1] :=
   pton_ntop6 _ rfl (by decide) []
 
-/-- PARTIAL.  Proved: whatever `inet_pton6` accepts is sixteen bytes (plus the round trip
-    `pton_ntop6` above and the concrete forms below).  Not proved: the full grammar statement
-    "pton6 accepts exactly the RFC 4291 §2.2 text forms (1–4 hex digits per group, upper or lower
-    case, leading zeros, at most one `::`, optional dotted-quad tail) and yields their value". -/
-theorem pton6_spec_partial (s v : Bytes) (h : pton6 s = some v) : v.length = 16 :=
-  pton6_sound s v h
+/-- THE GRAMMAR of `inet_pton6` (`Sentence6`): a text is accepted iff it is
+    * groups of 1–4 hex digits (either case, leading zeros allowed) separated by single colons,
+    * with at most one `::` (standing for at least one zero group),
+    * optionally a dotted quad as the LAST item (what `inet_pton4` accepts, first field ≤ 4 digits),
+    * making 8 groups without `::` and at most 7 with it (a quad counts for two);
+    and the result is the groups before `::`, the zero fill, the groups after it, the quad.
+    Both directions; it is always sixteen bytes. -/
+theorem pton6_spec (s V : Bytes) :
+    (pton6 s = some V ↔ Sentence6 (cstr s) V) ∧ (pton6 s = some V → V.length = 16) :=
+  ⟨pton6_grammar s V, pton6_sound s V⟩
+
+example : Sentence6 (bytesOf "2001:DB8::0001:1.2.3.4") [0x20, 0x01, 0x0d, 0xb8, 0, 0, 0, 0, 0, 0, 0, 1, 1, 2, 3, 4] :=
+  (pton6_spec (bytesOf "2001:DB8::0001:1.2.3.4") _).1.mp (by decide)
 
 example : pton6 (bytesOf "2001:db8::1:0:0:1" ++ [0]) = some [0x20, 0x01, 0x0d, 0xb8, 0, 0, 0, 0, 0, 1, 0, 0, 0, 0, 0, 1] ∧
     pton6 (bytesOf "::ffff:1.2.3.4" ++ [0]) = some [0, 0, 0, 0, 0, 0, 0, 0, 0, 0, 0xff, 0xff, 1, 2, 3, 4] ∧
     pton6 (bytesOf "1::2::3" ++ [0]) = none ∧ pton6 (bytesOf "12345::" ++ [0]) = none ∧
-    pton6 (bytesOf "1:2:3:4:5:6:7:8:9" ++ [0]) = none ∧ pton6 (bytesOf "::" ++ [0]) = some (List.replicate 16 0) := by
+    pton6 (bytesOf "1:2:3:4:5:6:7:8:9" ++ [0]) = none ∧ pton6 (bytesOf "1:2:3:4:5:6:7::8" ++ [0]) = none ∧
+    pton6 (bytesOf "::00001.2.3.4" ++ [0]) = none ∧ pton6 (bytesOf "1:" ++ [0]) = none ∧
+    pton6 (bytesOf "::" ++ [0]) = some (List.replicate 16 0) := by
   decide
 
 /-! ## asprintf / vasprintf / cx_vasprintf (repair F06) -/
@@ -422,6 +480,19 @@ theorem mbsnrtowcs_spec (mbr : Bytes → MbRes) (src : Bytes) (srclen : Nat) :
 example : mbsnrtowcs utf8Mbr [97, 0xc3, 0xa9, 98] 4 (some [7, 7]) = ⟨some 2, some 3, [97, 0xe9]⟩ ∧
     mbsnrtowcs utf8Mbr [97, 0xff] 2 (some [7, 7, 7]) = ⟨none, some 1, [97, 7, 7]⟩ ∧
     mbsnrtowcs utf8Mbr [97, 0, 98] 3 (some [7, 7, 7]) = ⟨some 1, none, [97, 0, 7]⟩ := by decide
+
+/-- `mbsnrtowcs` on `srclen` bytes that `mbrtowc` splits into the characters `cs` (no NUL,
+    nothing invalid) with room in `dst`: returns their number, stores exactly their codes at the
+    front of `dst` and nothing else, and leaves `*src` just past the `srclen` bytes -/
+theorem mbsnrtowcs_valid_spec (mbr : Bytes → MbRes) (src : Bytes) (srclen : Nat) (d : List Nat)
+    (cs : List (Nat × Nat)) (hs : srclen ≤ src.length) (hd : Decodes mbr (src.take srclen) cs)
+    (hfit : cs.length ≤ d.length) :
+    mbsnrtowcs mbr src srclen (some d) = ⟨some cs.length, some srclen, cs.map (·.2) ++ d.drop cs.length⟩ :=
+  mbsnrtowcs_valid mbr src srclen d cs hs hd hfit
+
+example : Decodes utf8Mbr [97, 0xc3, 0xa9] [(1, 97), (2, 0xe9)] :=
+  .cons _ 1 97 _ (by decide) (by decide) (by decide) (by decide)
+    (.cons _ 2 0xe9 _ (by decide) (by decide) (by decide) (by decide) .nil)
 
 /-- the unrepaired `mbsnrtowcs` assigned `*src` with a NULL destination -/
 theorem mbsnrtowcs_unrepaired_violates :
@@ -517,5 +588,36 @@ theorem fnmatch_code_sound (fl : FnFlags) (pat str : List Nat)
 example : Matches (FnFlags.ofNat 1) (tokenize (FnFlags.ofNat 1) 8 (bytesOf "*/[a-c]?")) (bytesOf "x/bz") :=
   (fnmatch_code_sound (FnFlags.ofNat 1) (bytesOf "*/[a-c]?") (bytesOf "x/bz") (by decide) (by decide)
     (by decide)).1
+
+/-- SOUNDNESS AND COMPLETENESS of the loop of the code itself for every flag set without
+    FNM_PERIOD: the mirror of `wfnmatch` (single retry point = the LAST `*`, `*.` rule,
+    `disallow_wildcard`, FNM_LEADING_DIR at pattern end) answers 0 exactly when the tokenised
+    pattern matches the subject in the declarative semantics, always ends within its fuel with 0
+    or 1, and therefore computes exactly the reference matcher / the specification. -/
+theorem fnmatch_code_sound_complete (fl : FnFlags) (hper : fl.period = false) (pat str : List Nat)
+    (hp : ∀ c ∈ pat, c ≠ 0) (hs : ∀ c ∈ str, c ≠ 0) :
+    (wfnmatch fl pat str = 0 ↔ Matches fl (tokenize fl (pat.length + 1) pat) str) ∧
+    (wfnmatch fl pat str = 0 ∨ wfnmatch fl pat str = 1) ∧
+    wfnmatch fl pat str = refFnmatch fl pat str ∧
+    wfnmatch fl pat str = fnmatchSpec fl pat str := by
+  have h1 : wfnmatch fl pat str = 0 ↔ Matches fl (tokenize fl (pat.length + 1) pat) str :=
+    ⟨wfnmatch_sound fl pat str hp hs, wfnmatch_complete fl hper pat str hp hs⟩
+  have h2 := wfnmatch_01 fl pat str hs
+  have h3 : wfnmatch fl pat str = refFnmatch fl pat str := by
+    unfold refFnmatch
+    by_cases hm : refMatch fl (tokenize fl (pat.length + 1) pat) str = true
+    · simp only [hm, if_true]
+      exact h1.mpr ((refMatch_iff fl _ _).mp hm)
+    · simp only [hm, if_false]
+      rcases h2 with h0 | h1'
+      · exact absurd ((refMatch_iff fl _ _).mpr (h1.mp h0)) hm
+      · exact h1'
+  refine ⟨h1, h2, h3, ?_⟩
+  unfold fnmatchSpec
+  simp only [hper, Bool.false_eq_true, if_false]
+  exact h3
+
+example : wfnmatch (FnFlags.ofNat 1) (bytesOf "*x/[!b]*c") (bytesOf "axx/acac") = 0 ∧
+    wfnmatch (FnFlags.ofNat 1) (bytesOf "*x/[!b]*c") (bytesOf "ax/x/ac") = 1 := by decide
 
 end UsualProps.C14
